@@ -104,6 +104,7 @@ class Sim:
         self.clock_jumps = {}           # step -> delta (fault plan)
         self.n_fault_clock_jump = 0
         self.n_stall = 0
+        self.atomic = 0                 # >0: harness code, no yield points
 
     # -- registration -------------------------------------------------------
     def attach_driver(self):
@@ -138,6 +139,8 @@ class Sim:
 
     # -- yield points -------------------------------------------------------
     def yield_point(self, tag, line):
+        if self.atomic:
+            return
         lt = self.current
         self.step += 1
         self.ydigest = ((self.ydigest * 1000003) ^ (lt.id * 7919 + tag * 100003
